@@ -56,9 +56,11 @@ func externKey(fn *ssa.Function) string {
 	return fn.String() // e.g. (*math/big.Int).Sign, math/bits.Mul64
 }
 
-func loadEngine(repo string, tags string) (*Engine, error) {
+func loadEngine(repo string, tags string) (*Engine, error) { return loadEngineOverlay(repo, tags, nil) }
+
+func loadEngineOverlay(repo string, tags string, overlay map[string][]byte) (*Engine, error) {
 	e := &Engine{repo: repo, spkgs: map[string]*ssa.Package{}, funcs: map[string]*ssa.Function{}, globals: map[string]*GlobalInfo{}, tags: tags}
-	cfg := &packages.Config{Mode: packages.LoadAllSyntax, Dir: repo, BuildFlags: []string{"-tags=" + tags},
+	cfg := &packages.Config{Mode: packages.LoadAllSyntax, Dir: repo, BuildFlags: []string{"-tags=" + tags}, Overlay: overlay,
 		Env: append(os.Environ(), "GOFLAGS=-mod=mod", "GOPROXY=off", "GOSUMDB=off", "GOTOOLCHAIN=local", "GOARCH=amd64", "GOOS=linux")}
 	pkgs, err := packages.Load(cfg, ".", "./context")
 	if err != nil {
